@@ -263,3 +263,8 @@ EXPLANATION = "under construction"
 ASSUMPTIONS = []
 TRUSTED = []
 BOUNDED = [{"name": "subcommand-trees-vs-selection-model", "script": "bounded/b17_subcommands.py"}]
+
+
+from contracts.share import shared  # noqa: E402
+UNITS += shared("C17", "contracts.c03", '_ActionSubCommands.add_subcommand')
+UNITS += shared("C17", "contracts.c04", 'ArgumentParser._load_env_vars')
